@@ -2,15 +2,19 @@
 // api.Entry(WithBatchCount), SentinelEntry.Exit and the resource node's concurrency gauge.
 //
 //	load <res:threshold>*
-//	entry <id> <res> <batch>                 => pass | block iso <rule-index> <triggered-value> | dup
-//	exit <id>
+//	entry <id> <res> <batch> [type=<t>]      => pass | block iso <rule-index> <triggered-value> | dup   (WithResourceType)
+//	exit <id> [err]                          (err: Exit(WithError(..)))
+//	trace <id>                               (api.TraceError on the entry, live or exited)
+//	dexit <id>                               (Exit called by TWO goroutines that meet inside the completion path, see rdv)
 //	conc <res>                               => gauge
 //	sched <id0> <res> <b0,b1,…> <i0,i1,…|->  => [r0,…] max=<g>
 //	par <id0> <k> <res> <batch>              = sched id0 res b,…,b 0,…,k-1,0,…,k-1
-//	soak <res> <goroutines> <rounds> <batch> => gauge0=ok max<=<bound> rej=ok total=ok
+//	soak <res> <goroutines> <rounds> <batch> [x2] => gauge0=ok max<=<bound> min=ok rej=ok total=ok
+//	                                         (x2: every admitted entry is exited by two goroutines at once)
 //
 // soak: real goroutines (GOMAXPROCS = NumCPU for the op, no hooks) loop Entry/Exit on the resource.  Only verdicts
 // are printed, never the racy values: gauge0 = the gauge is back to its value before the op once all have exited;
+// min = no worker read less than g0+1 right after its own admission (its own entry is in flight);
 // max = the largest gauge a worker read right after its own admission is within max(g0, N+z)+(goroutines-1)
 // (N = tightest threshold; g0+goroutines without rule) - the bound is printed and compared with the model's;
 // rej = nobody was rejected when g0+(goroutines-1)+batch <= N; total = admitted+blocked = attempted.
@@ -31,6 +35,9 @@ import (
 	"strings"
 	"sync"
 	"sync/atomic"
+	"time"
+
+	"github.com/pkg/errors"
 
 	sentinel "github.com/alibaba/sentinel-golang/api"
 	"github.com/alibaba/sentinel-golang/core/base"
@@ -56,7 +63,69 @@ type thread struct {
 	b     *base.BlockError
 }
 
+// rdv makes two Exit calls on one entry meet inside the completion path: two user StatSlots, one ordered just before and one
+// just after the statistic slot, in which (while armed) a caller waits for a second caller or for a short real-time timeout.
+// With a correct Exit (sync.Once) only one caller ever arrives: it times out once at the first slot and skips the second.
+type rdv struct {
+	armed atomic.Bool
+	mu    sync.Mutex
+	n     [2]int
+	ch    [2]chan struct{}
+	solo  bool
+}
+
+type rdvSlot struct {
+	r     *rdv
+	idx   int
+	order uint32
+}
+
+func (s *rdvSlot) Order() uint32                                        { return s.order }
+func (s *rdvSlot) OnEntryPassed(*base.EntryContext)                     {}
+func (s *rdvSlot) OnEntryBlocked(*base.EntryContext, *base.BlockError) {}
+func (s *rdvSlot) OnCompleted(*base.EntryContext) {
+	r := s.r
+	if !r.armed.Load() {
+		return
+	}
+	r.mu.Lock()
+	if s.idx == 1 && r.solo {
+		r.mu.Unlock()
+		return
+	}
+	r.n[s.idx]++
+	if r.n[s.idx] == 2 {
+		close(r.ch[s.idx])
+	}
+	c := r.ch[s.idx]
+	r.mu.Unlock()
+	select {
+	case <-c:
+	case <-time.After(3 * time.Millisecond):
+		r.mu.Lock()
+		r.solo = true
+		r.mu.Unlock()
+	}
+}
+
+func (r *rdv) arm() {
+	r.mu.Lock()
+	r.n = [2]int{}
+	r.ch = [2]chan struct{}{make(chan struct{}), make(chan struct{})}
+	r.solo = false
+	r.mu.Unlock()
+	r.armed.Store(true)
+}
+
+var errTraced = errors.New("c04: traced error")
+
+var resTypes = map[string]base.ResourceType{
+	"common": base.ResTypeCommon, "web": base.ResTypeWeb, "rpc": base.ResTypeRPC, "gateway": base.ResTypeAPIGateway,
+	"dbsql": base.ResTypeDBSQL, "cache": base.ResTypeCache, "mq": base.ResTypeMQ,
+}
+
 type Interp struct {
+	rdv   *rdv
 	clk   *vh.Clock
 	now   uint64
 	ents  map[uint64]*handle
@@ -71,6 +140,9 @@ func New() vh.Interp {
 	it := &Interp{now: 1_900_000_000_000}
 	it.clk = vh.NewClock(it.now)
 	verifhook.Sched = it.hook
+	it.rdv = &rdv{}
+	sentinel.GlobalSlotChain().AddStatSlot(&rdvSlot{r: it.rdv, idx: 0, order: stat.StatSlotOrder - 1})
+	sentinel.GlobalSlotChain().AddStatSlot(&rdvSlot{r: it.rdv, idx: 1, order: stat.StatSlotOrder + 1})
 	return it
 }
 
@@ -161,7 +233,15 @@ func (it *Interp) Step(t []string, op string) string {
 		if it.live(id) {
 			return "dup"
 		}
-		e, b := sentinel.Entry(t[2], sentinel.WithBatchCount(u32(t[3])))
+		opts := []sentinel.EntryOption{sentinel.WithBatchCount(u32(t[3]))}
+		if len(t) > 4 {
+			rt, ok := resTypes[strings.TrimPrefix(t[4], "type=")]
+			if !ok || !strings.HasPrefix(t[4], "type=") {
+				panic("bad resource type " + t[4])
+			}
+			opts = append(opts, sentinel.WithResourceType(rt))
+		}
+		e, b := sentinel.Entry(t[2], opts...)
 		if b != nil {
 			idx, tv := blockParts(b)
 			return "block iso " + idx + " " + tv
@@ -170,7 +250,33 @@ func (it *Interp) Step(t []string, op string) string {
 		return "pass"
 	case "exit":
 		if h, ok := it.ents[vh.U(t[1])]; ok {
-			h.e.Exit() // a second Exit of the same entry must be a no-op (sync.Once)
+			// a second Exit of the same entry must be a no-op (sync.Once)
+			if len(t) > 2 && t[2] == "err" {
+				h.e.Exit(base.WithError(errTraced))
+			} else {
+				h.e.Exit()
+			}
+			h.exited = true
+		}
+		return ""
+	case "trace":
+		if h, ok := it.ents[vh.U(t[1])]; ok {
+			sentinel.TraceError(h.e, errTraced)
+		}
+		return ""
+	case "dexit":
+		if h, ok := it.ents[vh.U(t[1])]; ok {
+			it.rdv.arm()
+			var wg sync.WaitGroup
+			for i := 0; i < 2; i++ {
+				wg.Add(1)
+				go func() {
+					defer wg.Done()
+					h.e.Exit()
+				}()
+			}
+			wg.Wait()
+			it.rdv.armed.Store(false)
 			h.exited = true
 		}
 		return ""
@@ -189,7 +295,7 @@ func (it *Interp) Step(t []string, op string) string {
 	case "sched":
 		return it.sched(vh.U(t[1]), t[2], list(t[3]), list(t[4]))
 	case "soak":
-		return it.soak(t[1], int(vh.U(t[2])), int(vh.U(t[3])), u32(t[4]))
+		return it.soak(t[1], int(vh.U(t[2])), int(vh.U(t[3])), u32(t[4]), len(t) > 5 && t[5] == "x2")
 	}
 	panic("unknown op " + t[0])
 }
@@ -271,7 +377,7 @@ func (it *Interp) sched(id0 uint64, res string, bs, sch []string) string {
 	return vh.List(out) + " max=" + fmt.Sprint(mx)
 }
 
-func (it *Interp) soak(res string, gor, rounds int, batch uint32) string {
+func (it *Interp) soak(res string, gor, rounds int, batch uint32, x2 bool) string {
 	g0 := int64(it.gauge(res))
 	minN, has := int64(0), false
 	for _, r := range it.rules {
@@ -294,8 +400,8 @@ func (it *Interp) soak(res string, gor, rounds int, batch uint32) string {
 	verifhook.Sched = nil
 	prev := runtime.GOMAXPROCS(runtime.NumCPU())
 	var wg sync.WaitGroup
-	var admitted, blocked, maxSeen int64
-	maxSeen = g0
+	var admitted, blocked, maxSeen, minSeen int64
+	maxSeen, minSeen = g0, g0+1
 	start := make(chan struct{})
 	for w := 0; w < gor; w++ {
 		wg.Add(1)
@@ -303,16 +409,39 @@ func (it *Interp) soak(res string, gor, rounds int, batch uint32) string {
 			defer wg.Done()
 			<-start
 			var a, b, mx int64
+			mn := g0 + 1
+			var hand chan *base.SentinelEntry
+			var done chan struct{}
+			if x2 {
+				hand, done = make(chan *base.SentinelEntry), make(chan struct{})
+				go func() {
+					for e := range hand {
+						e.Exit()
+						done <- struct{}{}
+					}
+				}()
+				defer close(hand)
+			}
 			for i := 0; i < rounds; i++ {
 				e, be := sentinel.Entry(res, sentinel.WithBatchCount(batch))
 				if be != nil {
 					b++
 					continue
 				}
-				if g := int64(it.gauge(res)); g > mx {
+				g := int64(it.gauge(res))
+				if g > mx {
 					mx = g
 				}
-				e.Exit()
+				if g < mn {
+					mn = g
+				}
+				if x2 {
+					hand <- e // the partner and this worker now call Exit on the same entry at once
+					e.Exit()
+					<-done
+				} else {
+					e.Exit()
+				}
 				a++
 			}
 			atomic.AddInt64(&admitted, a)
@@ -320,6 +449,12 @@ func (it *Interp) soak(res string, gor, rounds int, batch uint32) string {
 			for {
 				cur := atomic.LoadInt64(&maxSeen)
 				if mx <= cur || atomic.CompareAndSwapInt64(&maxSeen, cur, mx) {
+					break
+				}
+			}
+			for {
+				cur := atomic.LoadInt64(&minSeen)
+				if mn >= cur || atomic.CompareAndSwapInt64(&minSeen, cur, mn) {
 					break
 				}
 			}
@@ -339,6 +474,11 @@ func (it *Interp) soak(res string, gor, rounds int, batch uint32) string {
 		out = append(out, fmt.Sprintf("max<=%d", bound))
 	} else {
 		out = append(out, fmt.Sprintf("max=%d>%d", maxSeen, bound))
+	}
+	if minSeen >= g0+1 {
+		out = append(out, "min=ok")
+	} else {
+		out = append(out, fmt.Sprintf("min=%d<%d", minSeen, g0+1))
 	}
 	if has && g0+int64(gor)-1+int64(batch) <= minN && blocked != 0 {
 		out = append(out, fmt.Sprintf("rej=%d", blocked))
